@@ -1,9 +1,26 @@
-// Replay driver for unit remap: the ORIGINAL try_remap_base_commit_sha_field (whole function) and the ORIGINAL text of the
-// comparator's scan (region tp_scan of tracked_paths_match_for_commit_pairs) between a plain-Rust wrapper.  Inputs are built
-// from their parts, so the expected result is known by construction and owes nothing to the scanning logic under test.
+// Replay driver for unit remap: the ORIGINAL text of the comparator (region tp_all of tracked_paths_match_for_commit_pairs:
+// building git's stdin from the commit-metadata table, running git, scanning its output) between a plain-Rust wrapper.
+// git is a stand-in that answers from a table of tree pairs, so the expected result is known by construction.
 #![allow(dead_code, unused)]
 #[derive(Debug)]
 pub enum GitAiError { Generic(String) }
+use std::collections::HashMap;
+pub struct Output { pub stdout: Vec<u8> }
+thread_local! { static DELTAS: std::cell::RefCell<HashMap<(String, String), String>> = Default::default(); static GIT_CALLS: std::cell::Cell<u32> = Default::default(); }
+/// stand-in for git diff-tree --stdin --raw -z: per stdin line `<left> <right>` the header and the delta recorded for that pair
+fn exec_git_stdin(_args: &[String], stdin: &[u8]) -> Result<Output, GitAiError> {
+    GIT_CALLS.with(|c| c.set(c.get() + 1));
+    let text = String::from_utf8_lossy(stdin).to_string();
+    let mut out: Vec<u8> = Vec::new();
+    for line in text.split('\n') {
+        if line.is_empty() { continue; }
+        let (l, r) = line.split_once(' ').ok_or_else(|| GitAiError::Generic(format!("bad stdin line {:?}", line)))?;
+        out.extend_from_slice(format!("{} {}\n", l, r).as_bytes());
+        let d = DELTAS.with(|m| m.borrow().get(&(l.to_string(), r.to_string())).cloned());
+        match d { Some(d) => out.extend_from_slice(d.as_bytes()), None => return Err(GitAiError::Generic(format!("git was asked about an unknown tree pair {:?}", line))) }
+    }
+    Ok(Output { stdout: out })
+}
 include!("@ITEMS@");
 use std::panic::{catch_unwind, AssertUnwindSafe};
 struct Ctx { evaluated: u64, failed: std::collections::HashSet<String> }
@@ -27,27 +44,41 @@ fn unesc(s: &str) -> String {
     out
 }
 
-// ---------------------------------------------------------------- the comparator's scan
-/// sections: (header without newline, delta bytes) per tree pair, the shape git prints
-fn chk_scan(c: &mut Ctx, secs: &[(String, String)]) {
+// ---------------------------------------------------------------- the comparator
+/// one commit pair: (left tree or "" when the table lacks the commit / has an empty tree, right tree likewise, delta git prints)
+type Pair = (String, String, String);
+fn chk_all(c: &mut Ctx, ps: &[Pair]) {
     c.evaluated += 1;
-    let input = secs.iter().map(|(h, d)| format!("{}~{}", esc(h), esc(d))).collect::<Vec<_>>().join("|");
-    let mut data: Vec<u8> = Vec::new();
-    for (h, d) in secs { data.extend_from_slice(h.as_bytes()); data.push(b'\n'); data.extend_from_slice(d.as_bytes()); }
-    let pairs: Vec<(String, String)> = secs.iter().map(|_| ("orig".to_string(), "new".to_string())).collect();
-    let want = secs.iter().all(|(_, d)| d.is_empty());
-    match guarded(move || region_tp_scan(data, &pairs)) {
-        Ok(Ok(b)) => if b != want { c.fail("region_tp_scan", "ensures#1", input, format!("Ok({})", b), format!("Ok({}): true exactly when no pair has a delta", want)); },
-        Ok(Err(e)) => c.fail("region_tp_scan", "ensures#0", input, format!("Err({:?})", e), "Ok".into()),
-        Err(p) => c.fail("region_tp_scan", "safety", input, p, "no panic".into()),
+    let input = ps.iter().map(|(l, r, d)| format!("{}~{}~{}", esc(l), esc(r), esc(d))).collect::<Vec<_>>().join("|");
+    let mut meta: HashMap<String, CommitObjectMetadata> = HashMap::new();
+    let mut pairs: Vec<(String, String)> = vec![];
+    DELTAS.with(|m| m.borrow_mut().clear());
+    for (k, (l, r, d)) in ps.iter().enumerate() {
+        let (lc, rc) = (format!("orig{}", k), format!("new{}", k));
+        // "-" = the commit is missing from the table, "" = present with an empty tree id
+        if l != "-" { meta.insert(lc.clone(), CommitObjectMetadata { tree_oid: l.clone(), first_parent: None }); }
+        if r != "-" { meta.insert(rc.clone(), CommitObjectMetadata { tree_oid: r.clone(), first_parent: None }); }
+        DELTAS.with(|m| { m.borrow_mut().entry((l.clone(), r.clone())).or_insert(d.clone()); });   // git's answer is a function of the tree pair: the first definition wins
+        pairs.push((lc, rc));
+    }
+    let known = ps.iter().all(|(l, r, _)| l != "-" && r != "-" && !l.is_empty() && !r.is_empty());
+    let want = known && ps.iter().all(|(l, r, _)| DELTAS.with(|m| m.borrow().get(&(l.clone(), r.clone())).map(|d| d.is_empty()).unwrap_or(true)));
+    match guarded(move || region_tp_all(&pairs, meta, vec!["diff-tree".to_string()])) {
+        Ok(Ok(b)) => if b != want { c.fail("region_tp_all", "ensures#0", input, format!("Ok({})", b), format!("Ok({}): true exactly when every tree is known and no pair has a delta", want)); },
+        Ok(Err(e)) => c.fail("region_tp_all", "ensures#1", input, format!("Err({:?})", e), "Ok (the stand-in git answers every pair it should be asked about)".into()),
+        Err(p) => c.fail("region_tp_all", "safety", input, p, "no panic".into()),
     }
 }
-fn gen_secs(g: &mut Rng) -> Vec<(String, String)> {
+const TREES: &[&str] = &["4b825dc642cb6eb9a060e54bf8d69288fbee4904", "aaaa", "bbbb", "t1", "0123456789abcdef0123456789abcdef01234567"];
+fn gen_pairs(g: &mut Rng) -> Vec<Pair> {
     let n = g.below(5) as usize;
     (0..n).map(|_| {
-        let h = ["4b825dc6 4b825dc6", "aaaa bbbb", "t1 t2", "0123456789abcdef0123456789abcdef01234567 89abcdef0123456789abcdef0123456789abcdef"][g.below(4) as usize].to_string();
-        let d = match g.below(5) { 0 => ":100644 100644 aaa bbb M\0src/main.rs\0".to_string(), 1 => ":100644 000000 aaa 000 D\0a\nb.txt\0:100644 100644 c d M\0x\0".to_string(), _ => String::new() };
-        (h, d)
+        let l = TREES[g.below(TREES.len() as u64) as usize].to_string();
+        let same = g.below(3) == 0;
+        let r = if same { l.clone() } else { TREES[g.below(TREES.len() as u64) as usize].to_string() };
+        let d = if same || l == r { String::new() } else { match g.below(4) { 0 => ":100644 100644 aaa bbb M\0src/main.rs\0".to_string(), 1 => ":100644 000000 aaa 000 D\0a\nb.txt\0:100644 100644 c d M\0x\0".to_string(), _ => String::new() } };
+        let (l, r) = match g.below(14) { 0 => ("-".to_string(), r), 1 => (l, "-".to_string()), 2 => (String::new(), r), _ => (l, r) };
+        (l, r, d)
     }).collect()
 }
 
@@ -58,14 +89,19 @@ fn main() {
     let want = |f: &str| a[2] == "*" || a[2] == f;
     if a[1] == "search" {
         let mut g = Rng(a[3].parse::<u64>().unwrap_or(0).wrapping_mul(0x9E3779B97F4A7C15) ^ 0x6a09e667f3bcc909);
-        if want("region_tp_scan") {
-            chk_scan(&mut c, &[]);
-            for n in 1..5usize { for bad in 0..=n { let secs: Vec<(String, String)> = (0..n).map(|k| ("t1 t2".to_string(), if k + 1 == bad { ":100644 100644 a b M\0f\0".to_string() } else { String::new() })).collect(); chk_scan(&mut c, &secs); } }
-            for _ in 0..3000 { let s = gen_secs(&mut g); chk_scan(&mut c, &s); }
+        if want("region_tp_all") {
+            chk_all(&mut c, &[]);
+            let dl = ":100644 100644 a b M\0f\0".to_string();
+            // identical trees in one pair, a delta in another: every position of the delta, every position of the identical pair
+            for n in 1..5usize { for bad in 0..=n { for same in 0..=n {
+                let ps: Vec<Pair> = (0..n).map(|k| if k + 1 == bad { ("t1".to_string(), "t2".to_string(), dl.clone()) } else if k + 1 == same { ("t7".to_string(), "t7".to_string(), String::new()) } else { (format!("l{}", k), format!("r{}", k), String::new()) }).collect();
+                chk_all(&mut c, &ps);
+            } } }
+            for _ in 0..3000 { let s = gen_pairs(&mut g); chk_all(&mut c, &s); }
         }
     } else {
         match a[2].as_str() {
-            "region_tp_scan" => { let secs: Vec<(String, String)> = a[3].split('|').filter(|s| !s.is_empty()).map(|s| { let (h, d) = s.split_once('~').unwrap(); (unesc(h), unesc(d)) }).collect(); chk_scan(&mut c, &secs); }
+            "region_tp_all" => { let ps: Vec<Pair> = a[3].split('|').filter(|s| !s.is_empty()).map(|s| { let q: Vec<&str> = s.split('~').collect(); (unesc(q[0]), unesc(q[1]), unesc(q[2])) }).collect(); chk_all(&mut c, &ps); }
             _ => {}
         }
     }
